@@ -2,6 +2,7 @@ package main
 
 import (
 	"fmt"
+	"strings"
 	"os"
 	"path/filepath"
 	"time"
@@ -131,6 +132,34 @@ func init() {
 		if err := dumpAndReplay(c, dump, 30*time.Minute); err != nil {
 			return err
 		}
+		// the record of finding D1: the machine with the old depth-first edge walk violates C01_Total (also: non-vacuity)
+		rec := `SPECIFICATION Spec
+CONSTANTS
+  MaxNodes = 3
+  MaxBP = 1
+  AllowReset = FALSE
+  AllowScribble = FALSE
+  Dev = {"bp_edge_walk"}
+  Recorded = {}
+  LeafVals <- MC_LeafVals
+  UnOps <- MC_UnOps
+  BinOps <- MC_BinOps
+VIEW View
+CONSTRAINT Bounded
+INVARIANT C01_Total
+CHECK_DEADLOCK FALSE
+`
+		if err := writeWork(c, "d1record.cfg", rec); err != nil {
+			return err
+		}
+		res, err := c.TLC(run.TLCOpts{Module: "MC_AutogradScalar", Config: "d1record.cfg", Workers: 4, Timeout: 10 * time.Minute, Tag: "d1record"})
+		if err != nil {
+			return err
+		}
+		if !strings.Contains(res.Out, "Invariant C01_Total is violated") {
+			return run.Brokenf("with the recorded deviation bp_edge_walk TLC did not report C01_Total violated:\n%s", run.Tail(res.Out, 20))
+		}
+		c.AddExtra("d1_record", "with Dev = {bp_edge_walk} (the depth-first edge walk of the pinned commit, repaired by f803b8a) TLC reports C01_Total violated")
 		tmc := mcRun{"MC_AutogradTensor", 3, 1, false, false}
 		if c.Thorough {
 			tmc = mcRun{"MC_AutogradTensor", 4, 1, false, false}
